@@ -104,6 +104,12 @@ def mixed_grid(pp, n, phys, split):
 def build_grid(pp, spec):
     if spec["kind"] == "mixed":
         g = mixed_grid(pp, spec["n"], spec["phys"], spec["split"])
+    elif spec["kind"] == "prism":
+        # extruded triangle grid: triangular faces (3 nodes) and quadrilateral faces (4 nodes) in one 3-D grid
+        n, phys = spec["n"], spec["phys"]
+        g2 = pp.StructuredTriangleGrid(np.array(n[:2]), np.array(phys[:2], dtype=float))
+        g2.compute_geometry()
+        g, _, _ = pp.grid_extrusion.extrude_grid(g2, np.linspace(0.0, float(phys[2]), n[2] + 1))
     else:
         ctor = {"cart": pp.CartGrid, "tri": pp.StructuredTriangleGrid, "tet": pp.StructuredTetrahedralGrid}[spec["kind"]]
         g = ctor(np.array(spec["n"]), np.array(spec["phys"], dtype=float))
@@ -144,7 +150,7 @@ def sheared(pp, spec, A):
 def grid_specs(pp, rng, quick):
     base = [("cart", [2, 2], [2.0, 2.0]), ("cart", [3, 2], [1.5, 1.0]), ("cart", [1, 1], [1.0, 2.0]), ("tri", [2, 2], [1.0, 1.0]),
             ("tri", [3, 2], [3.0, 1.0]), ("cart", [2, 2, 2], [1.0, 2.0, 1.5]), ("tet", [1, 1, 1], [1.0, 1.0, 1.0]),
-            ("tet", [2, 1, 1], [2.0, 1.0, 1.5])]
+            ("tet", [2, 1, 1], [2.0, 1.0, 1.5]), ("prism", [2, 1, 2], [2.0, 1.0, 1.5])]
     if not quick:
         base += [("cart", [3, 3], [3.0, 1.5]), ("cart", [4, 3], [1.0, 1.0]), ("tri", [1, 1], [1.0, 1.0]), ("tri", [3, 3], [1.0, 2.0]),
                  ("cart", [3, 2, 2], [1.0, 1.0, 1.0]), ("cart", [1, 1, 1], [1.0, 1.0, 1.0]), ("tet", [2, 2, 1], [1.0, 1.0, 1.0])]
